@@ -125,6 +125,12 @@ Section Sim.
   Definition sim (st : ob_state) (a : ac_state) : Prop :=
     ob_ok st /\ Forall2 sim_res (obst_res st) (acas_res a) /\ obst_fl st = acas_fl a /\ obst_nk st = acas_nk a.
 
+  (* after a step: up to date, or behind a full NSTART window, or behind an unfinished large
+     transmission to its session *)
+  Definition sim_settled (cnt : list (Z * Z)) (o : ac_obs) : Prop :=
+    acao_chg o = 0 \/ obpr_nstart p <= ob_ca_get cnt (acao_s o) \/
+    0 < ob_ca_get cnt (acao_s o + ob_lg_off).
+
   Lemma sim_sub_is : forall mode obs d x o s t,
     sim_sub mode obs d x o -> ob_sub_is s t x = ac_obs_is s t o.
   Proof.
@@ -492,7 +498,8 @@ Section Sim.
     intros res ca obs. induction subs as [|x tl IH]; intros rf H; cbn [ob_gone_subs]; [reflexivity|].
     specialize (IH (ob_ref_add rf (obsb_sess x) (-1)) (fun z Hz => H z (or_intror Hz))).
     destruct (ob_gone_subs p res ca tl (ob_ref_add rf (obsb_sess x) (-1))) as [outs rf'].
-    cbn [fst] in *. destruct (ob_blocked p (obrs_mode res) ca x); cbn [fst]; [assumption|].
+    cbn [fst] in *. destruct (ob_blocked p (obrs_mode res) ca x || ob_in_transfer ca (obsb_sess x));
+      cbn [fst]; [assumption|].
     cbn [ac_gone_ok]. rewrite Z.eqb_refl, IH. cbn [andb].
     destruct (H x (or_introl eq_refl)) as [o [Ho Hm]].
     destruct (ob_find (ac_obs_is (obsb_sess x) (obsb_tok x)) obs) eqn:F; [reflexivity|].
@@ -625,7 +632,7 @@ Section Sim.
       acaw_res w' = RA ++ ac_mk_ar (obrs_id r) (pre ++ obs') :: RB /\
       acaw_fl w' = oblp_fl l' /\ acaw_nk w' = oblp_nk l' /\ acaw_cnt w' = oblp_ca l' /\
       Forall2 (sim_sub (obrs_mode r) (obrs_obs r) false) subs' obs' /\
-      (forall o, In o obs' -> acao_chg o = 0 \/ obpr_nstart p <= ob_ca_get (oblp_ca l') (acao_s o)) /\
+      (forall o, In o obs' -> sim_settled (oblp_ca l') o) /\
       (forall s, ob_ca_get (oblp_ca l) s <= ob_ca_get (oblp_ca l') s).
   Proof.
     intros r RA RB. induction subs as [|x tl IH];
@@ -681,9 +688,26 @@ Section Sim.
         repeat split; try assumption.
         + constructor; [|assumption]. unfold sim_sub. cbn.
           repeat split; try assumption; auto.
-        + intros o0 [<-|Ho0]; [|apply K7; assumption]. right.
+        + intros o0 [<-|Ho0]; [|apply K7; assumption]. right. left.
           unfold ob_blocked in C2. apply andb_true_iff in C2. destruct C2 as [C2 _].
           apply Z.leb_le in C2. rewrite <- A1. specialize (K8 (obsb_sess x)). cbn in K8. lia. }
+    destruct (ob_in_transfer (oblp_ca l) (obsb_sess x)) eqn:C3.
+    { (* held back by an unfinished large transmission *)
+      destruct (ob_notify_subs p r tl (ob_lp_pend l)) as [[[tl' pd0] l0] outs0] eqn:E.
+      inversion H; subst subs' pd l' outs. clear H.
+      destruct (IH (pre ++ [o]) otl (ob_lp_pend l) w tl' pd0 l0 outs0 E Hmode Hrange HFtl Hnd')
+        as [w' [obs' [K1 [K2 [K3 [K4 [K5 [K6 [K7 K8]]]]]]]]]; try assumption.
+      - apply Hpre'; auto.
+      - rewrite <- app_assoc. exact Hres.
+      - exists w', (o :: obs'). rewrite <- app_assoc in K2. cbn [app] in K2.
+        assert (Hd : obrs_dirty r = true \/ obsb_dirty x = true).
+        { apply andb_false_iff in C1. destruct C1 as [C1|C1]; apply negb_false_iff in C1; auto. }
+        repeat split; try assumption.
+        + constructor; [|assumption]. unfold sim_sub. cbn.
+          repeat split; try assumption; auto.
+        + intros o0 [<-|Ho0]; [|apply K7; assumption]. right. right.
+          unfold ob_in_transfer in C3. apply Z.ltb_lt in C3. rewrite <- A1.
+          specialize (K8 (obsb_sess x + ob_lg_off)). cbn in K8. lia. }
     (* a message goes out *)
     assert (Hd : obrs_dirty r = true \/ obsb_dirty x = true).
     { apply andb_false_iff in C1. destruct C1 as [C1|C1]; apply negb_false_iff in C1; auto. }
@@ -781,7 +805,7 @@ Section Sim.
       ac_outs c w outs = inl w' /\ acaw_res w' = RA ++ y' :: RB /\ acar_id y' = acar_id y /\
       acaw_fl w' = oblp_fl l' /\ acaw_nk w' = oblp_nk l' /\ acaw_cnt w' = oblp_ca l' /\
       sim_res r' y' /\
-      (forall o, In o (acar_obs y') -> acao_chg o = 0 \/ obpr_nstart p <= ob_ca_get (oblp_ca l') (acao_s o)) /\
+      (forall o, In o (acar_obs y') -> sim_settled (oblp_ca l') o) /\
       (forall s, ob_ca_get (oblp_ca l) s <= ob_ca_get (oblp_ca l') s).
   Proof.
     intros r y RA RB l w r' l' outs H [Sid [Smode Ssubs]] [U [R D]] Hres HRA Hfl Hnk Hcnt.
@@ -822,7 +846,7 @@ Section Sim.
       acaw_fl w' = oblp_fl l' /\ acaw_nk w' = oblp_nk l' /\ acaw_cnt w' = oblp_ca l' /\
       Forall2 sim_res rs' ars' /\
       (forall y o, In y ars' -> In o (acar_obs y) ->
-                   acao_chg o = 0 \/ obpr_nstart p <= ob_ca_get (oblp_ca l') (acao_s o)) /\
+                   sim_settled (oblp_ca l') o) /\
       (forall s, ob_ca_get (oblp_ca l) s <= ob_ca_get (oblp_ca l') s).
   Proof.
     induction rs as [|r tl IH]; intros ars RA l w rs' l' outs H HF Hok Hnd Hres Hfl Hnk Hcnt;
@@ -846,7 +870,9 @@ Section Sim.
         repeat split; try assumption.
         * constructor; assumption.
         * intros y0 o [<-|Hy0] Ho; [|eapply J7; eassumption].
-          destruct (K8 o Ho) as [Hz|Hb]; [left; assumption | right]. specialize (J8 (acao_s o)). lia.
+          destruct (K8 o Ho) as [Hz|[Hb|Hb]]; [left; assumption | right; left | right; right].
+          -- specialize (J8 (acao_s o)). lia.
+          -- specialize (J8 (acao_s o + ob_lg_off)). lia.
         * intro s0. specialize (K9 s0). specialize (J8 s0). lia.
   Qed.
 
@@ -859,12 +885,13 @@ Section Sim.
     pose proof Hok as [A [B C]].
     assert (Hsettle : forall ars cnt,
               (forall y o, In y ars -> In o (acar_obs y) ->
-                           acao_chg o = 0 \/ obpr_nstart p <= ob_ca_get cnt (acao_s o)) ->
+                           sim_settled cnt o) ->
               ac_all_settled c cnt ars = true).
     { intros ars cnt Hs. unfold ac_all_settled. apply forallb_forall. intros y Hy.
       apply forallb_forall. intros o Ho. unfold ac_settled. rewrite Hns.
-      destruct (Hs y o Hy Ho) as [Hz|Hb]; [rewrite Hz; reflexivity|].
-      apply orb_true_iff. right. apply Z.leb_le. assumption. }
+      destruct (Hs y o Hy Ho) as [Hz|[Hb|Hb]]; [rewrite Hz; reflexivity| |].
+      - apply orb_true_iff. left. apply orb_true_iff. right. apply Z.leb_le. assumption.
+      - apply orb_true_iff. right. unfold ob_in_transfer. apply Z.ltb_lt. assumption. }
     destruct (obst_pending st) eqn:P.
     - destruct (ob_notify_all p (obst_res st) (ob_mk_lp ca false (obst_nk st) (obst_fl st) (obst_ref st)))
         as [[rs l] outs0] eqn:E. inversion H; subst st' outs. clear H.
